@@ -25,6 +25,13 @@ pub const BIG_TTL: u32 = 3_110_400;
 pub fn new_env(seq: u32, max_entry_ttl: u32) -> Env {
     let e = Env::new_with_config(EnvTestConfig { capture_snapshot_at_drop: false });
     e.cost_estimate().budget().reset_unlimited();
+    // network-configuration limits (entry size, footprint, ...) are not the library's documented limits
+    e.cost_estimate().disable_resource_limits();
+    // host diagnostics (debug event log + backtrace attached to every error) only enrich error text,
+    // which no oracle reads, and make every refused call several times more expensive
+    if std::env::var("VERIF_DEBUG").is_err() {
+        let _ = e.host().set_diagnostic_level(Default::default());
+    }
     e.ledger().with_mut(|li| {
         li.sequence_number = seq;
         li.timestamp = 1_700_000_000 + seq as u64 * 5;
